@@ -219,9 +219,15 @@ def _call(f, keep=False):
 
 
 def _digest(r, with_message=False):
-    """Stable digest of a call result; messages (addresses stripped) only for same-process comparisons."""
+    """Stable digest of a call result.  For same-process comparisons the CAUSE of a decoding error is included, reduced
+    to the class named in 'Midi decoding error <class ...>' (all memory errors identified: where an allocation fails
+    under the harness's own RLIMIT_AS depends on heap state, not on note_seq)."""
     import re
-    c = ['OK', r[1], r[2]] if r[0] == 'OK' else ['EXC', r[1]] + ([re.sub(r'0x[0-9a-fA-F]+', '0x', r[2])] if with_message else [])
+    c = ['OK', r[1], r[2]] if r[0] == 'OK' else ['EXC', r[1]]
+    if with_message and r[0] == 'EXC':
+        m = re.search(r"<class '([^']+)'>", r[2])
+        cause = m.group(1).split('.')[-1] if m else ''
+        c.append('MemoryError' if 'MemoryError' in cause else cause)
     return hashlib.sha1(json.dumps(c, sort_keys=True).encode()).hexdigest()[:16]
 
 
@@ -410,11 +416,14 @@ def _work_order(req):
                 r = _file_call(datas[i], i)
             else:
                 r = _call(lambda: midi_io.midi_to_note_sequence(datas[i]))
-            if _digest(r, True) != _digest(first[i], True):
+            if _digest(r, True) != _digest(first[i], True) and not any(
+                    x[0] == 'EXC' and 'MemoryError' in x[2] for x in (r, first[i])):
+                # (allocation failures under the harness's RLIMIT_AS depend on heap state, e.g. on exception objects
+                #  still referenced from earlier calls; a MemoryError turned into MIDIConversionError is compliant)
                 mism.append([i, first[i][:2] if first[i][0] == 'EXC' else ['OK'], r[:3] if r[0] == 'EXC' else ['OK'], pas])
     changed = [i for i, (ns, snap) in enumerate(alive) if ns is not None and ns.SerializeToString(deterministic=True) != snap]
     return {'op': 'order',
-            'results': [[r[0], r[1] if r[0] == 'EXC' else '', r[2] if r[0] == 'OK' else [], _digest(r)] for r in first],
+            'results': [[r[0], r[1] if r[0] == 'EXC' else '', r[2], _digest(r)] for r in first],   # r[2]: wf list | message
             'mismatches': mism[:5], 'alive_changed': changed[:5]}
 
 
@@ -1403,14 +1412,34 @@ def model_input(case):
 
 
 def model_output(case, out):
-    rb, tb, ib, res = out
+    rb, tb, ib, res = out[:4]
+    possible = [EXN_NAMES[k + 1] for k, b in enumerate(out[4]) if b] if len(out) > 4 else None
     if res and res[0] == 0:
         r = ['OK', res[1], res[2]]
     elif res and res[0] == -1000:
         r = ['EXC', EXN_NAMES.get(res[1], 'code%r' % (res[1],))]
     else:
         r = ['BAD-MODEL-OUTPUT', res]
-    return ['PARSED', [rb, tb, ib], r]
+    return ['PARSED', [rb, tb, ib], r, possible]
+
+
+def equal(case, io, mo):
+    """Correspondence.  Exact on everything a byte string can reach (op bytes: flags, full result or exception class).
+    For a constructed object (op pm) whose conversion fails, the model's FIRST failing assignment is an artefact of the
+    order in which independent repeated fields are filled, which C16 does not constrain: the implementation's exception
+    class must then be one of the classes that can surface over all field orders (Model/MidiConvert.exn_possible;
+    Proofs: convert's own error is always in that set and the set is empty iff convert succeeds)."""
+    if not (isinstance(mo, list) and len(mo) == 4 and mo[0] == 'PARSED'):
+        return False
+    flags, mres, possible = mo[1], mo[2], mo[3]
+    if mres[0] == 'EXC' and (possible is None or mres[1] not in possible):
+        return False                                  # model inconsistent with its own set: fail closed
+    if mres[0] == 'OK' and possible:
+        return False
+    if case['op'] == 'pm' and mres[0] == 'EXC' and len(possible) > 1:
+        return (isinstance(io, list) and len(io) == 3 and io[0] == 'PARSED' and io[1] == flags and
+                io[2][0] == 'EXC' and io[2][1] in possible)
+    return io == ['PARSED', flags, mres]
 
 
 def _statement(res, gen, op, neg_res, variant):
@@ -1428,7 +1457,7 @@ def oracle(case, io):
     resp = _response(case)
     gen = case.get('gen', '?')
     if io[0] == 'RESOURCE':
-        if io[1] != 'timeout':
+        if io[1] not in ('timeout', 'harness-MemoryError'):
             # a dead worker is neither "returns a NoteSequence" nor "raises MIDIConversionError": fail closed
             return {'kind': 'worker-crash', 'detail': resp, 'gen': gen}
         return None     # wall-clock limit: no exception escaped; recorded in evidence, not a violation
@@ -1438,7 +1467,7 @@ def oracle(case, io):
     if case['op'] == 'order':
         # the statement on every file of the group, then independence of call history
         for i, r in enumerate(resp['results']):
-            v = _statement([r[0], r[1], r[2]] if r[0] == 'EXC' else ['OK', None, r[2]], gen, 'bytes', False, 'order[%d]' % i)
+            v = _statement([r[0], r[1], str(r[2])] if r[0] == 'EXC' else ['OK', None, r[2]], gen, 'bytes', False, 'order[%d]' % i)
             if v:
                 v['hex'] = case['input']['hexes'][i]
                 return v
@@ -1462,7 +1491,7 @@ def oracle(case, io):
                     a, b = resp['results'][i], other['res']
                     if (a[0], a[1] if a[0] == 'EXC' else '') != (b[0], b[1] if b[0] == 'EXC' else '') or \
                             (a[0] == 'OK' and a[3] != _digest(b)):
-                        if not ('MemoryError' in str(a[1]) or (b[0] == 'EXC' and 'MemoryError' in b[2])):
+                        if not ((a[0] == 'EXC' and 'MemoryError' in str(a[2])) or (b[0] == 'EXC' and 'MemoryError' in b[2])):
                             return {'kind': 'result-differs-between-processes', 'hex': h, 'in_group': a[:2], 'alone': b[:2] if b[0] == 'EXC' else ['OK'], 'gen': gen}
         return None
     res = resp['res']
@@ -1496,7 +1525,7 @@ def oracle(case, io):
         v = _statement(fres, gen, 'bytes', neg_res, 'file')
         if v:
             return v
-        if _res_canon(fres) != _res_canon(res):
+        if _res_canon(fres) != _res_canon(res) and not any(r[0] == 'EXC' and 'MemoryError' in r[2] for r in (res, fres)):
             return {'kind': 'file-variant-differs', 'gen': gen,
                     'bytes': res[:2] if res[0] == 'EXC' else ['OK'], 'file': fres[:2] if fres[0] == 'EXC' else ['OK']}
     if resp.get('parsed'):
